@@ -277,6 +277,7 @@ def run_batch(prop, engine, tier, batch_seed, budget_s, max_runs=None, env=None,
             for k, n in (res.get("probes") or {}).items():
                 agg["probes"][k] = agg["probes"].get(k, 0) + n
             agg["steps"] += res.get("steps", 0)
+            agg["digests"][obj["i"]] = res.get("digest")
             if v in ("ok", "violation") and res.get("shape") is not None:
                 d = agg["shapes"].setdefault(res["shape"], [0, False])
                 d[0] += 1
